@@ -23,6 +23,9 @@ CLAIMED = {
  'C14': ('5.14', 'Custom destinations append exactly one unknown field with the configured number/wire type/value, existing columns are filled, unmatched traffic is unaffected, bit extraction equals the bit-level specification on a finite domain enumerated inside Coq, the key depends only on the key fields -- proved on the model; generated mapping files loaded by the real YAML loader and run over mixed traffic compared with the model compiled from the same abstract configuration; GetBytes swept on both sides.', 'Partial: get_bytes = bit spec is proved on a finite domain (buffers <= 2 bytes over a byte basis, offsets/lengths 0..17) and swept, not proved for all buffers; formatter.fields/rename/render are judged on the implementation. '),
 
  'C12': ('5.12', 'The converted message is independent of what the pool hands back and equals the conversion from an empty message; outputs depend on the pipe state only through the exporter own view; every prefix history of other source addresses leaves the outputs unchanged -- proved on the model; the real pool is poisoned through a verif hook and compared with the model, and probe histories after prefixes (valid, damaged, custom fields, poisoned, concurrent goroutines) are compared byte for byte (bin, JSON, text) with a fresh process.', 'Partial: sync.Pool and the generated FlowMessage.Reset are modelled (Reset clears all columns and unknown fields); the concurrent variant is observed, not proved. '),
+
+ 'C01': ('5.4', 'For every compiled mapping, every pipe state, every exporter and every byte string the three pipes, the exported decoders and the dissector return a value or an error: no panic, no fuel exhaustion with fuel linear in the datagram -- proved (progress lemma per loop, potential function for the dissector, bit-range safety of GetBytes); every compiled mapping file satisfies the hypothesis; hostile histories through all pipes, generated mapping files, mapping.yaml and the exported entry points with a nil configuration under a watchdog, compared with the model.', 'Partial: wall-clock is observed by the watchdog; the theorem bounds loop iterations. Third-party code (protobuf-go, encoding/json) is outside the model. '),
+ 'C02': ('5.5', 'Slot counts pre-sized from attacker-controlled counts are capped and every decoded element is physically present: sFlow slots <= 1000 + 1000*(len/20) for every byte string, data-set records * min-size <= set bytes, v5 slots <= 16-bit count -- proved (ghost quantity); measured: every aligned 16/32-bit word of structured datagrams replaced by each of the 7 hostile values, TotalAlloc per datagram <= 16 MiB + 256*len*(1+W) in a child with an address-space limit.', 'Partial: the theorems bound the ghost slot/record counts for successful decodes; real bytes (GC, allocator, failing decodes) are measured, not modelled. '),
 }
 props = [json.loads(l) for l in open(os.path.join(V, 'properties.jsonl'))]
 checks, na = [], []
